@@ -12,6 +12,8 @@ CONSTANTS
  AllowWith = TRUE
  AllowVars = TRUE
  MaxUses = 2
+ AllowFlat = FALSE
+ MoveAfterRename = FALSE
  OldWith = FALSE
  RestoreOwn = FALSE
 INVARIANT DriftFree
